@@ -168,6 +168,10 @@ pub fn run_socket_part(ev: &mut Evidence, seed: u64, runs: usize, scratch: &std:
     worterbuch::verif::set_perturbation(seed | 1);
     let ends = [End::CleanClose, End::HalfLine, End::Garbage, End::NullLine, End::InvalidUtf8, End::UnknownMessage, End::BadToken];
     for run in 0..runs {
+        if !ev.violations.is_empty() || ev.counter("socket_runs_inconclusive") >= 4 {
+            ev.count("socket_runs_skipped_after_verdict_or_watchdogs", 1);
+            continue;
+        }
         let end = ends[run % ends.len()];
         let auth = end == End::BadToken || run % 3 == 0;
         let Ok(server) = &servers[usize::from(auth)] else {
